@@ -172,6 +172,8 @@ static void transcribe_item(binson_parser *p, binson_writer *w, ref_cur *c, bool
     (void) c;
 }
 
+volatile unsigned touch_sink;
+
 void harness(void)
 {
     LOAD_INPUTS();
@@ -184,6 +186,9 @@ void harness(void)
 #endif
     for (size_t i = 0; i < SK_LEN; i++) { if (SKM[i]) buf[i] = SK[i]; }
     buf[NB - 1] = SK_TAIL;
+#ifdef SK_TAIL2
+    buf[NB - 2] = SK_TAIL2;
+#endif
 #else
     EXACT_BYTES(buf, NB);
     for (size_t i = 0; i < NB; i++) buf[i] = IN.buf[i];
@@ -474,6 +479,27 @@ void harness(void)
         }
         default: break;
         }
+#if PROPSET == 1
+        /* C01: after every call, whatever it returned, every getter is called and every byte of every span it hands out
+           is read; string_equals compares with an arbitrary NUL-terminated candidate of up to 3 characters (longer than
+           the value on most paths): all of it under the memory checks of this query */
+        {
+            unsigned acc = (unsigned) binson_parser_get_type(&p) + (unsigned) binson_parser_get_depth(&p);
+            /* get_name is not a pure getter: where there is no name (array element) it latches a STATE error. It is
+               called after an arbitrary subset of the ops (bit k of IN.seq[3]) so that both continuations are explored. */
+            bbuf *tn = ((IN.seq[3] >> (k & 7)) & 1) ? binson_parser_get_name(&p) : NULL;
+            bbuf *ts = binson_parser_get_string_bbuf(&p);
+            bbuf *tb = binson_parser_get_bytes_bbuf(&p);
+            if (tn != NULL) { for (size_t i = 0; i < NB; i++) { if (i < tn->bsize) acc += tn->bptr[i]; } }
+            if (ts != NULL) { for (size_t i = 0; i < NB; i++) { if (i < ts->bsize) acc += ts->bptr[i]; } }
+            if (tb != NULL) { for (size_t i = 0; i < NB; i++) { if (i < tb->bsize) acc += tb->bptr[i]; } }
+            acc += (unsigned) binson_parser_get_integer(&p) + (unsigned) binson_parser_get_boolean(&p);
+            acc += (unsigned) dbits(binson_parser_get_double(&p));
+            char cand[4]; cand[0] = IN.seq[0]; cand[1] = IN.seq[1]; cand[2] = IN.seq[2]; cand[3] = 0;
+            acc += (unsigned) binson_parser_string_equals(&p, cand);
+            touch_sink = acc;
+        }
+#endif
 #if PROPSET == 9
         /* C09 (API-only form): once some call has set an error, every later advancing call returns false, nothing moves,
            the getters are neutral and the error stays set (reset / verify excepted) */
